@@ -85,3 +85,84 @@ Print Assumptions c04_all_jobs_end.
 Print Assumptions c04_one_outcome_each.
 Print Assumptions c04_isolated.
 Print Assumptions c04_monitor_rejects.
+
+(* ------------------------------------------------------------------------------------------
+   Content of the job: WHICH adapter methods, with WHICH of the decoded values in which
+   argument position, how the values returned / the exception raised become the reply.
+   Model/MetaHandlers.v mirrors _on_nus ... _on_mdc and execute_and_reply; proofs in
+   Proofs/MetaHandlersProofs.v.
+   - [spec_calls q] (specification side, restated independently in the harness and compared on
+     every run) is the interface table: the adapter calls request q stands for, a function of
+     the request alone;
+   - [handle_tokens m d outs]: the server's treatment of the tokens d of a request of method m
+     when the successive adapter calls have the outcomes outs (ORet v / ORaise e; any script);
+   - [n_calls q outs]: the whole table, or up to and including the first call that raises. *)
+From LS Require Import Model.Codec Model.Readers Model.Writers Model.AriSpec Model.MetaHandlers
+                       Proofs.ReadersRoundtrip Proofs.MetaHandlersProofs.
+
+(* every entry of the interface table once, in table order, cut only by a raising call *)
+Theorem c04_calls : forall m q p outs,
+  MetaHandlers.handler m q = Some p ->
+  fst (exec m p outs) = firstn (n_calls q outs) (spec_calls q).
+Proof. exact exec_calls. Qed.
+
+(* a normal return yields the data reply built from the returned values (decodable: C07) ... *)
+Theorem c04_data_reply : forall m q p outs,
+  MetaHandlers.handler m q = Some p ->
+  first_raise outs (length (spec_calls q)) = None ->
+  snd (exec m p outs) = spec_data_reply m q outs.
+Proof. exact exec_reply_ok. Qed.
+
+(* ... any raised exception yields the error reply of the method for it (its form: C08) *)
+Theorem c04_error_reply : forall m q p outs i e,
+  MetaHandlers.handler m q = Some p ->
+  first_raise outs (length (spec_calls q)) = Some (i, e) ->
+  snd (exec m p outs) = error_reply m e.
+Proof. exact exec_reply_err. Qed.
+
+(* end to end with the request codec: for EVERY well-formed encoded request of the 14 post-init
+   methods (any argument values) and EVERY script of adapter outcomes, the adapter receives the
+   interface table of the ENCODED values, and the job's result is the data reply / error reply *)
+Theorem c04_decoded_arguments : forall m q outs,
+  post_init_meta m = true -> shape_ok m q = true -> ints_ok q ->
+  exists r,
+    handle_tokens m (encode_args q) outs =
+      Some (HJob (firstn (n_calls (expected q) outs) (spec_calls (expected q))) r)
+    /\ (first_raise outs (length (spec_calls (expected q))) = None ->
+          r = job_result_of (spec_data_reply m (expected q) outs))
+    /\ (forall i e, first_raise outs (length (spec_calls (expected q))) = Some (i, e) ->
+          r = job_result_of (error_reply m e)).
+Proof. exact handle_encoded. Qed.
+
+(* a request its reader rejects touches no adapter method *)
+Theorem c04_rejected_no_call : forall m d outs msg,
+  post_init_meta m = true -> read_request m d = PErr msg ->
+  handle_tokens m d outs = Some (HRejected msg).
+Proof. exact handle_rejected. Qed.
+
+(* the reply is suppressed only through the encoder's rejection of a returned value: the three
+   possible results of a job, and which one a writer result gives *)
+Theorem c04_result_cases : forall r,
+  (exists l, r = WOk l /\ job_result_of r = JReply l) \/
+  (r = WErr WRemoting /\ job_result_of r = JHandler) \/
+  (r = WErr WOther /\ job_result_of r = JSilent) \/
+  (r = WErr WUnmodelled /\ job_result_of r = JUnmodelled).
+Proof.
+  intros [l|[| |]]; [left; exists l; split; reflexivity | right; left | right; right; left | right; right; right];
+  split; reflexivity.
+Qed.
+
+(* non-vacuity: a GIT request for two items makes 12 calls; a raise in the 8th stops there *)
+Example c04_git_example :
+  let q := QGIT [Some (bs "a"); Some (bs "b")] in
+  exists p, MetaHandlers.handler MGIT q = Some p /\
+            length (fst (exec MGIT p [])) = 12 /\ length (spec_calls q) = 12.
+Proof. eexists; split; [reflexivity | split; vm_compute; reflexivity]. Qed.
+
+Print Assumptions c04_calls.
+Print Assumptions c04_data_reply.
+Print Assumptions c04_error_reply.
+Print Assumptions c04_decoded_arguments.
+Print Assumptions c04_rejected_no_call.
+Print Assumptions c04_result_cases.
+Print Assumptions c04_git_example.
